@@ -17,7 +17,8 @@ from checks.c20 import clean_flags
 
 def gen(ctx: common.Ctx, n: int) -> Iterator[dict[str, Any]]:
     cases = [c for c in corpus.load(["check-*.test"]) if not corpus.uses_fixture_only_features(c) and not c.cmd]
-    rng = common.rng_for("C13", "order")
+    import random
+    rng = random.Random("C13-core-order")   # core workload is seed-independent
     rng.shuffle(cases)
     texts = [c.main for c in cases[:300]]
     for k in range(n):
@@ -25,7 +26,7 @@ def gen(ctx: common.Ctx, n: int) -> Iterator[dict[str, Any]]:
         # drop the test-data expectation comments (`# E: ...`): they are comments, and an ignore can only be
         # appended to a line that has none
         files = {p: re.sub(r"(?m)[ \t]*# [ENW]:.*$", "", t) for p, t in c.all_files().items()}
-        r = common.rng_for("C13", c.id, k)
+        r = random.Random(f"C13-core-{c.id}-{k}")
         ops: list[str] = []
         if k >= len(cases) or r.random() < 0.25:
             m = mutators.mutate(files["main.py"], r, others=texts, n=1, ops=["rename_ident", "replace_type", "swap_stmts", "delete_stmt"])
@@ -37,9 +38,24 @@ def gen(ctx: common.Ctx, n: int) -> Iterator[dict[str, Any]]:
         # drop arguments orphaned by the filter above
         flags = [f for i, f in enumerate(flags) if f.startswith("-") or (i > 0 and flags[i - 1] in ("--python-version", "--platform", "--always-true", "--always-false", "--follow-imports"))]
         yield {"fn": "vlib.tasks.suppress:suppress",
-               "args": {"files": files, "flags": flags, "target": "main.py", "key": ["C13", ctx.seed, c.id, k],
+               "args": {"files": files, "flags": flags, "target": "main.py", "key": ["C13", "core", c.id, k],
                         "n_transforms": 3 if ctx.tier == "quick" else 6},
-               "_case": c.id, "_ops": ops}
+               "_case": f"{c.id}#{k}", "_ops": ops}
+    # exploration slice (VERIF_SEED-dependent): generated typed programs made ill-typed by one or two perturbations
+    from vlib import typedgen
+    for j in range(max(20, n // 10)):
+        src, _ = typedgen.generate(("C13x", ctx.seed, j), n_funcs=3 + j % 3)
+        r2 = common.rng_for("C13x", ctx.seed, j)
+        ops2 = []
+        for _ in range(r2.randint(1, 3)):
+            m2 = typedgen.perturb(src, r2)
+            if m2:
+                src, op = m2
+                ops2.append(op)
+        yield {"fn": "vlib.tasks.suppress:suppress",
+               "args": {"files": {"main.py": src}, "flags": r2.choice([[], ["--strict"], ["--warn-unreachable"]]), "target": "main.py",
+                        "key": ["C13x", ctx.seed, j], "n_transforms": 3 if ctx.tier == "quick" else 6},
+               "_case": f"x:typedgen{j}", "_ops": ops2}
 
 
 def _simplified(case: dict[str, Any]) -> bool:
@@ -101,7 +117,7 @@ def run(ctx: common.Ctx) -> None:
                         ctx.inconc("internal-failure (owner: C20)")
                     continue
                 if res.get("status_ok") is False:
-                    ctx.violation("exit-status:baseline", f"exit status {res['status0']} inconsistent with error lines", {"task": t, "out": res["out0"]})
+                    ctx.violation("exit-status:baseline", f"exit status {res['status0']} inconsistent with error lines", {"task": t, "out": res["out0"]}, case=t["_case"])
                 for case in res["cases"]:
                     if case.get("skipped") or case.get("failed"):
                         ctx.cell("case-skipped:" + str(case.get("skipped") or "failed"))
@@ -114,7 +130,7 @@ def run(ctx: common.Ctx) -> None:
                         ctx.nontriv(t["_case"], tuple(t["_ops"]), case["kind"], case["line"], tuple(case["codes"] or []))
                     if case["bad"]:
                         ctx.violation(mech(case["bad"][0], case), "; ".join(case["bad"])[:400],
-                                      {"task": t, "case": case, "out_before": res["out0"]})
+                                      {"task": t, "case": case, "out_before": res["out0"]}, case=f"{t['_case']}:{case['kind']}@{case['line']}:{','.join(case['codes'] or [])}")
                     elif case["n_vanish"] and case["n_stay"]:
                         ctx.sample({"program": t["_case"], "kind": case["kind"], "line": case["line"], "codes": case["codes"],
                                     "vanished": case["n_vanish"], "stayed": case["n_stay"], "either": case["n_either"]})
